@@ -45,7 +45,8 @@ func rulesYAML(gs []grule) (string, bool) {
 	sb.WriteString("    firewallrules:\n")
 	for _, g := range gs {
 		if len(g.Elems) == 0 {
-			return "", false
+			sb.WriteString("      - {}\n")
+			continue
 		}
 		for i, e := range g.Elems {
 			k, ok1 := yamlScalar(e.Key)
@@ -85,6 +86,18 @@ func (h *harness) configCases() {
 	for _, cs := range corpusCases()[:8] {
 		sets = append(sets, cs.rules)
 	}
+	// well-formed sets aimed at the node's own ping (their effect is observed through `ping`)
+	for i := 0; i < n/2; i++ {
+		gs := []grule{targetedRule(r, packet{cfgNode, "Abcdefgh", cfgNode, "ping"})}
+		if r.Bool() {
+			gs = append([]grule{genRule(r, false, 1)}, gs...)
+		}
+		if r.Chance(40) {
+			gs = append(gs, targetedRule(r, packet{cfgNode, "ping", cfgNode, "Abcdefgh"}))
+		}
+		sets = append(sets, gs)
+	}
+	n += n / 2
 	for len(sets) < n {
 		k := 1 + r.Intn(3)
 		gs := make([]grule, k)
@@ -105,7 +118,7 @@ func (h *harness) configCases() {
 		sock := filepath.Join(dir, fmt.Sprintf("c%d.sock", i))
 		cfg := filepath.Join(dir, fmt.Sprintf("c%d.yml", i))
 		data := filepath.Join(dir, "data")
-		conf := "---\n- node:\n    id: c12node\n    datadir: " + data + "\n" + y +
+		conf := "---\n- node:\n    id: " + cfgNode + "\n    datadir: " + data + "\n" + y +
 			"- log-level: error\n- control-service:\n    service: control\n    filename: " + sock + "\n- local-only:\n"
 		Must(os.WriteFile(cfg, []byte(conf), 0o600))
 		cmd := exec.Command(bin, "--config", cfg)
@@ -136,9 +149,18 @@ func (h *harness) configCases() {
 			}
 			time.Sleep(15 * time.Millisecond)
 		}
+		pingObs := ""
+		if started {
+			pingObs = h.pingSelf(gs, sock)
+		}
 		if !exited {
-			_ = cmd.Process.Kill() // by PID
-			<-done
+			_ = cmd.Process.Signal(syscall.SIGTERM) // by PID; lets a coverage build write its counters
+			select {
+			case <-done:
+			case <-time.After(3 * time.Second):
+				_ = cmd.Process.Kill()
+				<-done
+			}
 		}
 		logf.Close()
 		logb, _ := os.ReadFile(cfg + ".log")
@@ -173,5 +195,77 @@ func (h *harness) configCases() {
 		}
 		h.cf.Add(fmt.Sprintf("CConfig %s %s %s", tableCoq(gs), rulesCoq(gs), CoqBool(started)),
 			fmt.Sprintf("config %v -> %s", rec["rules"], state))
+		if pingObs != "" {
+			h.cf.Add(fmt.Sprintf("CPing %s %s %s %s %s", tableCoq(gs), rulesCoq(gs), coqText(cfgNode), coqText("Abcdefgh"), pingObs),
+				fmt.Sprintf("config %v: ping %s -> %s", rec["rules"], cfgNode, pingObs))
+		}
 	}
+}
+
+const cfgNode = "c12node"
+
+func oraclePing(rs []orule, self, eph string) string {
+	switch oracleVerdict(rs, packet{self, eph, self, "ping"}) {
+	case "accept":
+		if oracleVerdict(rs, packet{self, "ping", self, eph}) == "accept" {
+			return "PingReply"
+		}
+	case "reject":
+		// the pinger hears notices about packets from its own socket only
+		if oracleVerdict(rs, packet{self, "unreach", self, "unreach"}) == "accept" {
+			return "PingBlocked"
+		}
+	}
+	return "PingSilence"
+}
+
+// pingSelf: the rules the daemon was configured with are in force: `ping <self>` over the control
+// socket answers, is refused with "blocked by firewall", or gets nothing, as the first matching
+// rules dictate for the request, the reply and the notice.  The pinger's service name is random:
+// only rule sets whose outcome does not depend on it are judged.
+func (h *harness) pingSelf(gs []grule, sock string) string {
+	want, bad := oracleRules(gs)
+	if bad != nil {
+		return ""
+	}
+	exp := oraclePing(want, cfgNode, "Abcdefgh")
+	if exp != oraclePing(want, cfgNode, "zq9zq9zq") || exp != oraclePing(want, cfgNode, "A1b2C3d4") {
+		h.im.Hist("config-ping:skipped-depends-on-ephemeral-name")
+		return ""
+	}
+	ctl, err := DialCtl(sock, 3*time.Second)
+	if err != nil {
+		h.im.Hist("config-ping:no-control-connection")
+		return ""
+	}
+	defer ctl.Close()
+	wait := 1500 * time.Millisecond
+	if exp != "PingSilence" {
+		wait = 8 * time.Second
+	}
+	line, err := ctl.Cmd(`{"command":"ping","target":"`+cfgNode+`"}`, wait)
+	got := "PingSilence"
+	var rep map[string]interface{}
+	if err == nil && json.Unmarshal([]byte(line), &rep) == nil {
+		switch {
+		case rep["Success"] == true:
+			got = "PingReply"
+		case fmt.Sprint(rep["Error"]) == "blocked by firewall":
+			got = "PingBlocked"
+		default:
+			got = "PingOther:" + fmt.Sprint(rep["Error"])
+		}
+	} else if err == nil {
+		got = "PingOther:" + line
+	}
+	h.im.Hist("config-ping:" + strings.SplitN(got, ":", 2)[0])
+	rec := map[string]interface{}{"rules": rulesJSON(gs), "observed": got, "expected": exp}
+	h.im.Count(fmt.Sprintf("config-ping %v", rec["rules"]), true)
+	if got != exp {
+		h.im.Violate(fmt.Sprintf("receptor configured with these firewall rules: `ping %s` gives %s, the first matching rules dictate %s", cfgNode, got, exp), "config-rules-not-in-force", rec)
+	}
+	if strings.HasPrefix(got, "PingOther") {
+		return ""
+	}
+	return got
 }
